@@ -45,5 +45,6 @@ def run(ctx):
             ctx.call(page_rules.read_current_page_shape, prog, "R4")
             ctx.call(xml_rules.inverse_maps, prog, "R5", "R5", "R5")
             ctx.call(xml_rules.string_values_unchanged, prog, "R5")
+            ctx.call(xml_rules.setters, prog, "R5")
     ctx.cfg = None
     ctx.call(determinism_rules.controls)
